@@ -151,9 +151,27 @@ pub fn preused_decoder(
     size: usize,
 ) -> Result<Box<dyn codec::DynDec + Send>, reed_solomon_simd::Error> {
     let class = *rng.pick(&[Class::Tiny, Class::Small, Class::Edge, Class::Medium]);
-    let (k0, r0) = gen::config(rng, class, rate);
-    let size0 = *rng.pick(&[2usize, 64, 66, 130]);
-    let mut dec = codec::make_dec(api, k0, r0, size0, None)?;
+    let (mut k0, mut r0) = gen::config(rng, class, rate);
+    let mut size0 = *rng.pick(&[2usize, 64, 66, 130]);
+    let mut api0 = api;
+    // sometimes the previous life had the very same (k, r, size) - with the
+    // other rate's layout where the API allows to hand working space over
+    if rng.chance(1, 6) {
+        (k0, r0, size0) = (k, r, size);
+        if let Api::Rate(rk, eng) = api {
+            let other = match rk {
+                RateKind::High => Some(RateKind::Low),
+                RateKind::Low => Some(RateKind::High),
+                RateKind::Default => None,
+            };
+            if let Some(o) = other {
+                if gen::rate_ok(o, k, r) {
+                    api0 = Api::Rate(o, eng);
+                }
+            }
+        }
+    }
+    let mut dec = codec::make_dec(api0, k0, r0, size0, None)?;
     if rng.chance(1, 2) {
         for i in 0..rng.below(k0.min(4) + 1) {
             let junk = rng.bytes(size0);
@@ -165,9 +183,8 @@ pub fn preused_decoder(
         }
     }
     match api {
-        Api::Rate(_, eng) if rng.chance(1, 2) => {
+        Api::Rate(..) if api0 != api || rng.chance(1, 2) => {
             let work = dec.into_work();
-            let _ = eng;
             codec::make_dec(api, k, r, size, work)
         }
         _ => {
